@@ -694,7 +694,7 @@ theorem BookInv.step (s s' : Sys) (m : Msg) (rest0 subs : List Msg)
       have sent := (handle_sentBy s s' _ subs hx).1 a b cl d rfl
       cases handle_touch s s' _ subs hx with
       | none h _ hs _ => exact same h.hub ch.1 ch.2 (sentBy_noStake swapA (by decide) subs hs)
-      | hub s1 sender funds hm heq h1 hc hx' bb t r dd g =>
+      | hub s1 sender funds hm heq h1 _ hc hx' bb t r dd g =>
         have c1 : ChainOK s1 := ⟨fun w hw => by rw [hc.1]; exact c.outside w hw,
           fun w hw => by rw [hc.1]; rw [hc.2.1] at hw; exact c.unset w hw⟩
         have hT : ((s1.hubEnv.delegations).map (·.2)).sum = totalDelegated s := by
@@ -808,7 +808,7 @@ theorem C02_direct_call_recognises (s s' : Sys) (sender : Addr) (funds : List (D
       · exact absurd rfl (hm' _ _ _ _)
       · injection heq with _ e2 _ _
         rcases ht with ht | ht <;> (rw [ht] at e2; cases e2)
-    | hub s1 sender' funds' hm' heq h1' hc hx' bb t r dd g =>
+    | hub s1 sender' funds' hm' heq h1' _ hc hx' bb t r dd g =>
       injection heq with e1 _ e3 e4
       injection e3 with e3
       subst e1; subst e3; subst e4
@@ -1264,7 +1264,7 @@ theorem HubFund.step (s s' : Sys) (m : Msg) (rest0 subs : List Msg)
     have hhub : s'.hub = s.hub := by
       cases handle_touch s s' m subs hx with
       | none h _ _ _ => exact h.hub
-      | hub _ _ _ _ heq _ _ _ _ _ _ _ _ => subst heq; simp [isLeaf] at hm
+      | hub _ _ _ _ heq _ _ _ _ _ _ _ _ _ => subst heq; simp [isLeaf] at hm
       | bsei _ _ _ _ heq _ _ h _ _ _ _ => exact h
       | stsei _ _ _ _ heq _ h _ _ _ _ => exact h
       | reward _ _ _ _ heq _ _ _ _ h _ _ _ _ => exact h
@@ -1323,7 +1323,7 @@ theorem HubFund.step (s s' : Sys) (m : Msg) (rest0 subs : List Msg)
       exact other h (sentBy_noOut dispA (by decide) subs (sent.1 _ _ _ _ heq))
     | reg s1 sender funds rm heq _ _ _ _ h _ _ _ _ =>
       exact other h (sentBy_noOut regA (by decide) subs (sent.1 _ _ _ _ heq))
-    | hub s1 sender funds hm' heq h1 hc hx' _ _ _ _ _ =>
+    | hub s1 sender funds hm' heq h1 _ hc hx' _ _ _ _ _ =>
       -- what the handler sees: the balance after the attached funds arrived
       obtain ⟨s1', hmv, hch⟩ := handle_wasm_chain_eq s s' sender hubA (.hub hm') funds subs (heq ▸ hx)
       have hB1 : s1'.chain.bank hubA 0 ≥ s.chain.bank hubA 0 + fundsOf 0 funds := by
